@@ -54,7 +54,7 @@ fn build_wrapped_loop_choice_block(
     let simple_terminal_fallback = wrapped_loop_simple_terminal_fallback(continuation_body);
     let fallback_is_self = fallback_continuation == Some(continuation_path_abs.as_str());
     let inner_fallback = if fallback_is_self {
-        None
+        Some(IMPLICIT_DONE_FALLBACK)
     } else {
         fallback_continuation
     };
